@@ -1561,6 +1561,9 @@ class _DNF:
                 not isinstance(predicate_expr.right, Expr)
                 and isinstance(predicate_expr.left, Projection)
                 and predicate_expr.left.frame._name == pq_expr._name
+                # a DataFrame-valued predicate (``df[["a"]] > 1``) masks
+                # cells, it does not select rows
+                and predicate_expr.left.ndim == 1
             ):
                 op = predicate_expr._operator_repr
                 column = predicate_expr.left.columns[0]
